@@ -372,12 +372,34 @@ def fixed_cases():
     return out
 
 
+def wide_cases(rng, n):
+    """many entries under one wildcard (broadcast over long lists, wide `**`)"""
+    for _ in range(n):
+        m = rng.randint(9, 24)
+        heap = [{'k': 'list', 'c': rng.choice(['list', 'LSub', 'SList']), 'v': [{'r': i + 1} for i in range(m)]}]
+        for i in range(m):
+            lay = rng.choice(['dict', 'dict', 'inst', 'list'])
+            if lay == 'dict':
+                heap.append({'k': 'dict', 'c': 'dict', 'v': [[{'s': 'k'}, {'i': i}]] if rng.random() < 0.8 else []})
+            elif lay == 'inst':
+                heap.append({'k': 'inst', 'c': 'Obj', 'v': [['k', {'i': i}]] if rng.random() < 0.8 else []})
+            else:
+                heap.append({'k': 'list', 'c': 'list', 'v': [{'i': i}]})
+        path = rng.choice(['*.k', '**.k', '*.0', '*', '**'])
+        mut = None
+        r = rng.random()
+        if path.endswith(('k', '0')) and r < 0.7:
+            mut = {'kind': 'assign', 'val': jval(rng.choice([9, 'v']))} if r < 0.4 else {'kind': 'delete'}
+        yield {'heap': heap, 'target': {'r': 0}, 'spelling': {'text': path}, 'mut': mut}
+
+
 def generate(rng, tier, scale, **focus):
     n = (1400 if tier == 'quick' else 50000) * scale
     for c in fixed_cases():
         yield c
     for _ in range(n):
         yield gen_case(rng, focus.get('quirk_rate', 0.0))
+    yield from wide_cases(rng, (60 if tier == 'quick' else 1500) * scale)
 
 
 def corpus():
